@@ -60,8 +60,8 @@ def alphabet(writer):
 
 
 def applicable(writer, field, value):
-    if field == "pattern" and value == "":
-        return False  # the empty pattern is indistinguishable from "no pattern" throughout the library
+    if field == "pattern" and value == "" and writer != "epm":
+        return False  # outside the extended prefix map the empty pattern is indistinguishable from "no pattern"
     if writer == "jsonld" and field in ("prefix", "prefix_synonym") and (value == "" or value.startswith("@")):
         return False
     if writer in ("jsonld", "tsv") and field in ("pattern",):
@@ -176,8 +176,9 @@ def check(writer, field, value, ctx=None, mode=None):
             return [(f"epm/round-trip-raises/{field}", f"{where}: {type(e).__name__}: {str(e)[:100]}")]
         if ctx is not None:
             ctx.count("transitions", 2)
-        if record_set(back) != record_set(conv):
-            fails.append((f"epm/records-differ/{field}", f"{where}: read back {sorted(map(repr, record_set(back)))}"))
+        exact = lambda c: sorted((r.prefix, r.uri_prefix, tuple(sorted(r.prefix_synonyms)), tuple(sorted(r.uri_prefix_synonyms)), r.pattern) for r in c.records)  # noqa
+        if record_set(back) != record_set(conv) or [x for x in exact(back)] != [x for x in exact(conv)]:
+            fails.append((f"epm/records-differ/{field}", f"{where}: read back {exact(back)}"))
     elif writer == "jsonld":
         for inc, exp in it.product((False, True), (False, True)):
             w = f"{where} include_synonyms={inc} expand={exp}"
